@@ -132,6 +132,20 @@ func (h *harness) documentShapes(n int) {
 			m.AltVarDefs, m.AltFirst = altDefs(r, pc.varDefs), !r.Chance(1, 4)
 			m.Label = "two operations spreading one fragment (" + c.Label + ")"
 			derived.Cases = append(derived.Cases, m)
+			// (c) nested fragments: the usage sits 1..3 fragments deep, in a fragment reached only through
+			// other fragments (and through two paths); every variable has a legitimate use in the operation
+			hooked := false
+			for _, v := range pc.varDefs {
+				if hookInside(v.Ty, map[string]bool{}) {
+					hooked = true // the extra field would run the hooks once more
+				}
+			}
+			if !hooked {
+				nf := c
+				nf.Nest, nf.NestTwoPaths = r.Range(1, 3), r.Chance(1, 3)
+				nf.Label = fmt.Sprintf("usage %d fragments deep (%s)", nf.Nest, c.Label)
+				derived.Cases = append(derived.Cases, nf)
+			}
 			// (b) the literal moved into a default value
 			if d, ok := intoDefault(c, pc, t); ok {
 				derived.Cases = append(derived.Cases, d)
